@@ -636,6 +636,23 @@ PAIRLOOP_EXCEPTIONS = {
 }
 
 
+def unguarded_pair_callers(prog, fn):
+    """call sites of `fn` (same unit) that are not dominated by a test of the parity of a count (`x & 1`)"""
+    out = []
+    for g in fn.tu.funcs.values():
+        calls = g.calls(fn.name)
+        if not calls:
+            continue
+        IN, T = flow.condition_facts(g)
+        for x, S in flow.states_at(g, IN, T):
+            if x in calls:
+                tested = bool(S) and all(any(ln is not None and strip_casts(ln).k == "bin" and strip_casts(ln).op == "&"
+                                             and strip_casts(strip_casts(ln).kids[1]).v == 1 for (op, l, r, toks, ln, rn) in ps) for ps in S)
+                if not tested:
+                    out.append((x, g))
+    return out
+
+
 def _pairloop_rule(chk, prog):
     """A loop that walks key/value pairs reads a[i] and a[i + 1] and steps by two.  With `i < n` as its only bound it
     reads a[n] on the last round when n is odd - one element past what it was given.  (make_struct_n, which builds the
@@ -682,9 +699,15 @@ def _pairloop_rule(chk, prog):
             key = (fn.tu.name, fn.name)
             if ok:
                 chk.ok(rule, "%s: pair loop over `%s`: %s" % (fn.name, btxt[:30], ok))
-            elif key in PAIRLOOP_EXCEPTIONS:
+            elif key in PAIRLOOP_EXCEPTIONS and (key[0] != "parse.c" or not unguarded_pair_callers(prog, fn)):
                 chk.exception(rule, "%s:%s" % key, PAIRLOOP_EXCEPTIONS[key])
                 chk.ok(rule, "%s: pair loop over `%s` (exception)" % (fn.name, btxt[:30]))
+            elif key in PAIRLOOP_EXCEPTIONS:
+                c, caller = unguarded_pair_callers(prog, fn)[0]
+                chk.violation(rule, fn.tu.name, fn.name, "pairs:%s" % btxt[:30], c.loc,
+                              "%s walks its arguments in pairs (reads `%s`) and relies on its caller to have refused an odd count; the call at "
+                              "%s in %s is not preceded by such a test, so an odd-length literal reads one slot past the live arguments" % (
+                                  fn.name, reads[0].text()[:30], c.loc, caller.name))
             else:
                 chk.violation(rule, fn.tu.name, fn.name, "pairs:%s" % btxt[:30], lp.kids[1].loc,
                               "the loop steps `%s` by two under `%s` and reads `%s`: for an odd count the last round reads one element past "
